@@ -418,6 +418,8 @@ func (r *TypeReg) declHeap() string {
 		if strings.HasPrefix(c.Sort, "(Array Int ") {
 			el := strings.TrimSuffix(strings.TrimPrefix(c.Sort, "(Array Int "), ")")
 			fmt.Fprintf(&b, "(define-fun %s ((h Heap) (r Int)) %s (select (h.%s h) r))\n", n, el, n)
+		} else if !strings.HasPrefix(c.Sort, "(") {
+			fmt.Fprintf(&b, "(define-fun %s ((h Heap)) %s (h.%s h))\n", n, c.Sort, n)
 		}
 	}
 	return b.String()
